@@ -24,6 +24,9 @@ use crate::wire;
 
 const SIZES: [usize; 12] = [0, 1, 7, 8, 9, 255, 4096, 65535, 65536, 100_000, 16, 1000];
 
+/// payload tag of the writer that is cloned in the middle of a record
+const CLONE_WID: u8 = 3;
+
 fn payload(wid: u8, seq: usize, len: usize) -> Vec<u8> {
     (0..len).map(|j| (wid << 6) | ((seq * 7 + j) & 0x3f) as u8).collect()
 }
@@ -33,6 +36,9 @@ enum WOp {
     Write(usize),
     /// like Write, but a retry after Pending passes a buffer grown by this many bytes
     WriteGrow(usize, usize),
+    /// like Write, but the first time the call returns Pending the writer is cloned (a clone made
+    /// while a record is in flight); the clone then writes this many bytes of its own
+    WriteCloneMid(usize, usize),
     Flush,
 }
 
@@ -43,12 +49,13 @@ struct WLog {
     errors: Vec<String>,
     contended: u64,
     grown_retries: u64,
+    clones_mid_write: u64,
 }
 
 /// One poll_write call driven to completion: re-polled until Ready, with the same buffer or —
 /// `grow` — with a longer buffer that has the same prefix (what a copy loop that keeps filling
 /// its buffer does). Returns (n, the buffer passed to the successful call).
-async fn write_once(w: &mut StreamWriter<Writer>, buf: Vec<u8>, grow: usize, pipe: &Shared, log: &Arc<Mutex<WLog>>) -> std::io::Result<(usize, Vec<u8>)> {
+async fn write_once(w: &mut StreamWriter<Writer>, buf: Vec<u8>, grow: usize, pipe: &Shared, log: &Arc<Mutex<WLog>>, mut clone_slot: Option<&mut Option<StreamWriter<Writer>>>) -> std::io::Result<(usize, Vec<u8>)> {
     let mut buf = buf;
     let mut grow = grow;
     let n = std::future::poll_fn(|cx| {
@@ -65,6 +72,12 @@ async fn write_once(w: &mut StreamWriter<Writer>, buf: Vec<u8>, grow: usize, pip
                 grow = 0;
                 log.lock().unwrap().grown_retries += 1;
             }
+            if let Some(slot) = clone_slot.as_deref_mut() {
+                if slot.is_none() {
+                    *slot = Some(w.clone());
+                    log.lock().unwrap().clones_mid_write += 1;
+                }
+            }
         }
         r
     })
@@ -72,19 +85,34 @@ async fn write_once(w: &mut StreamWriter<Writer>, buf: Vec<u8>, grow: usize, pip
     Ok((n, buf))
 }
 
-async fn writer_task(mut w: StreamWriter<Writer>, wid: u8, ops: Vec<WOp>, pipe: Shared, log: Arc<Mutex<WLog>>, done: Arc<Done>) {
+async fn writer_task(mut w: StreamWriter<Writer>, wid: u8, ops: Vec<WOp>, pipe: Shared, log: Arc<Mutex<WLog>>, clone_log: Arc<Mutex<WLog>>, done: Arc<Done>) {
     let mut seq = 0;
     for op in ops {
         match op {
-            WOp::Write(len) | WOp::WriteGrow(len, _) => {
+            WOp::Write(len) | WOp::WriteGrow(len, _) | WOp::WriteCloneMid(len, _) => {
                 let grow = if let WOp::WriteGrow(_, g) = op { g } else { 0 };
                 let buf = payload(wid, seq, len);
                 seq += 1;
-                match write_once(&mut w, buf, grow, &pipe, &log).await {
+                let mut slot = None;
+                let want_clone = matches!(op, WOp::WriteCloneMid(..));
+                match write_once(&mut w, buf, grow, &pipe, &log, want_clone.then_some(&mut slot)).await {
                     Ok((n, buf)) => log.lock().unwrap().done.push((len, n, buf[..n.min(buf.len())].to_vec())),
                     Err(e) => {
                         log.lock().unwrap().errors.push(format!("write: {e}"));
                         break;
+                    }
+                }
+                if let WOp::WriteCloneMid(_, clen) = op {
+                    // the clone (made mid-record, or — if the call never returned Pending — now) is a
+                    // writer like any other: its write must produce one record of its own
+                    let mut cl = slot.unwrap_or_else(|| w.clone());
+                    let cbuf = payload(CLONE_WID, seq, clen);
+                    match write_once(&mut cl, cbuf, 0, &pipe, &clone_log, None).await {
+                        Ok((n, buf)) => clone_log.lock().unwrap().done.push((clen, n, buf[..n.min(buf.len())].to_vec())),
+                        Err(e) => {
+                            clone_log.lock().unwrap().errors.push(format!("write: {e}"));
+                            break;
+                        }
                     }
                 }
             }
@@ -307,7 +335,22 @@ fn run_a(c: &mut Case, big: bool) {
     let done = Arc::new(Done { left: AtomicUsize::new(specs.len()), waker: Mutex::new(None) });
     let logs: Vec<Arc<Mutex<WLog>>> = specs.iter().map(|_| Arc::new(Mutex::new(WLog::default()))).collect();
     let types: Vec<u8> = specs.iter().map(|(t, _)| *t).collect();
-    let all_ops: Vec<Vec<WOp>> = specs.iter().map(|_| gen_ops(&mut c.rng, big)).collect();
+    let mut all_ops: Vec<Vec<WOp>> = specs.iter().map(|_| gen_ops(&mut c.rng, big)).collect();
+    // one writer may be cloned in the middle of a record; the clone writes under its own tag
+    let clone_log = Arc::new(Mutex::new(WLog::default()));
+    let mut clone_of = None;
+    if c.rng.chance(1, 3) {
+        let k = c.rng.below(all_ops.len());
+        let cands: Vec<usize> = all_ops[k].iter().enumerate().filter(|(_, o)| matches!(o, WOp::Write(n) if *n > 0)).map(|(i, _)| i).collect();
+        if !cands.is_empty() {
+            let i = *c.rng.pick(&cands);
+            if let WOp::Write(n) = all_ops[k][i] {
+                let cl = *c.rng.pick(&[1usize, 8, 9, 200]);
+                all_ops[k][i] = WOp::WriteCloneMid(n, cl);
+                clone_of = Some(k);
+            }
+        }
+    }
     let status = *c.rng.pick(&crate::handler::STATUSES);
     let do_close = c.rng.chance(2, 3);
     let close_result: Arc<Mutex<Option<Result<(), String>>>> = Arc::new(Mutex::new(None));
@@ -316,7 +359,7 @@ fn run_a(c: &mut Case, big: bool) {
     let mut exec = Exec::new();
     for (k, (_, w)) in specs.into_iter().enumerate() {
         assert_eq!(u8::from(w.stream()), types[k]);
-        exec.spawn(Box::pin(writer_task(w, k as u8, all_ops[k].clone(), pipe.clone(), logs[k].clone(), done.clone())));
+        exec.spawn(Box::pin(writer_task(w, k as u8, all_ops[k].clone(), pipe.clone(), logs[k].clone(), clone_log.clone(), done.clone())));
     }
     {
         let done = done.clone();
@@ -428,7 +471,10 @@ fn run_a(c: &mut Case, big: bool) {
         describe(c, "writers-stalled", format!("quiescent with unfinished tasks after {steps} steps (lost wake-up on the output lock?)"), &out);
         return;
     }
-    let wl: Vec<(u8, WLog)> = types.iter().zip(&logs).map(|(t, l)| (*t, l.lock().unwrap().clone())).collect();
+    let mut wl: Vec<(u8, WLog)> = types.iter().zip(&logs).map(|(t, l)| (*t, l.lock().unwrap().clone())).collect();
+    if let Some(k) = clone_of {
+        wl.push((types[k], clone_log.lock().unwrap().clone()));
+    }
     for (k, (_, l)) in wl.iter().enumerate() {
         if let Some(e) = l.errors.first() {
             describe(c, "writer-error", format!("writer {k}: {e}"), &out);
@@ -458,6 +504,7 @@ fn run_a(c: &mut Case, big: bool) {
             c.l.add("transport_pending_writes", p.pending_writes);
             c.l.add("successful_writes", wl.iter().map(|(_, l)| l.done.len() as u64).sum());
             c.l.add("retries_with_grown_buffer", wl.iter().map(|(_, l)| l.grown_retries).sum());
+            c.l.add("clones_made_while_a_record_was_in_flight", wl.iter().map(|(_, l)| l.clones_mid_write).sum());
             c.l.add("reads_abandoned_before_close", abandoned_reads.load(Ordering::SeqCst) as u64);
             c.l.count("runs_checked");
             let mut h = beh.class();
@@ -466,6 +513,7 @@ fn run_a(c: &mut Case, big: bool) {
                     h = mix(h, match op {
                         WOp::WriteGrow(n, g) => (*n as u64) << 8 | *g as u64,
                         WOp::Write(n) => *n as u64,
+                        WOp::WriteCloneMid(n, m) => (*n as u64) << 20 | (*m as u64) << 8 | 0xc1,
                         WOp::Flush => 0xf1,
                     });
                 }
@@ -509,7 +557,7 @@ fn run_b(c: &mut Case, iterations: usize) {
                 let mut rng = Rng::new(seed);
                 let ops: Vec<WOp> = (0..iterations).map(|_| if rng.chance(1, 10) { WOp::Flush } else { WOp::Write(*rng.pick(&[0usize, 1, 7, 8, 9, 30, 300])) }).collect();
                 let done2 = done.clone();
-                let r = crate::ev::guarded(|| crate::threads::block_on(&group, writer_task(w, k as u8, ops, pipe, log, done)));
+                let r = crate::ev::guarded(|| crate::threads::block_on(&group, writer_task(w, k as u8, ops, pipe, log, Arc::new(Mutex::new(WLog::default())), done)));
                 match r {
                     Ok(Ok(())) => {}
                     Ok(Err(_)) => done2.finish(),
